@@ -60,6 +60,8 @@ def mk_factor(kind, rng, R, D, kappa=None, integer=False):
     if kind == "rank1":
         v = gen.vec(rng, R, D)
         g = np.ones(R) if omit[2] else rng.uniform(0.1, 2.0, R)
+        if gen.HOSTILE_SPECIAL and not omit[2] and rng.random() < 0.08:
+            g[int(rng.integers(0, R))] = 0.0  # a legal degenerate rank-one factor: exp(nu'x + c)
         nu = np.zeros((R, D)) if omit[0] else gen.vec(rng, R, D)
         lb = np.zeros(R) if omit[1] else gen.vec(rng, R)
         kw = {"v": J(v)}
@@ -349,6 +351,8 @@ def _mk_approx(kind, rng, Dy, Dx, Dk, Da=None, wscale=0.6, kappa=None, zero_w=Fa
         else:
             W = gen.vec(rng, Dk, Dx + 1, scale=wscale)
             W[:, 0] = rng.uniform(0.3, 1.2, Dk) * rng.choice([-1.0, 1.0], Dk)  # non-zero offsets
+            if gen.HOSTILE_SPECIAL and rng.random() < 0.08:
+                W[int(rng.integers(0, Dk)), 1:] = 0.0  # a bias-only unit: constant feature
             W0 = W.copy()
             if hist[1]:
                 W0 = gen.vec(rng, Dk, Dx + 1, scale=wscale)
